@@ -13,6 +13,7 @@ CLAUSE_PROPS = {
     'eqref.value': ('C01',),
     'eqref.answer': ('C01', 'C04'),
     'eqref.tree': ('C01',),
+    'twin.': ('C01',),
     'rollback.': ('C02',),
     'tmpdir.': ('C02',),
     'foreign.': ('C03',),
